@@ -4,6 +4,7 @@ package main
 // top-level verification of one function against its contract.
 
 import (
+	"sort"
 	"fmt"
 	"go/ast"
 	"go/token"
@@ -269,7 +270,7 @@ func (ex *Exec) sliceLiteral(st *State, ty types.Type, vs []Val) Val {
 }
 
 func (ex *Exec) invoke(st *State, ct *callTarget, k func(*State, []Val)) {
-	if st.frame.fi == ex.top && st.frame.closure == nil && ex.top.Spec != nil && len(ex.top.Spec.Anchors) > 0 && ct.call != nil {
+	if st.frame.fi == ex.top && (st.frame.closure == nil || ex.closureTop) && ex.top.Spec != nil && len(ex.top.Spec.Anchors) > 0 && ct.call != nil {
 		name, ord := ex.callAnchor(ct)
 		ex.anchorArgs = ct.args
 		cutPath := ex.runAnchors(st, "before", name, ord)
@@ -281,7 +282,7 @@ func (ex *Exec) invoke(st *State, ct *callTarget, k func(*State, []Val)) {
 		args0 := ct.args
 		ex.lastWitness = nil
 		k = func(st *State, vs []Val) {
-			if st.frame.fi == ex.top && st.frame.closure == nil {
+			if st.frame.fi == ex.top && (st.frame.closure == nil || ex.closureTop) {
 				ex.anchorResults = vs
 				ex.anchorArgs = args0 // the argument values as passed (entry values)
 				ex.runAnchors(st, "after", name, ord)
@@ -1585,6 +1586,7 @@ func (ex *Exec) verifyFunc(fi *FuncInfo) {
 	fr.onReturn = func(st *State, vals []Val) { ex.checkPost(st, fi, c, vals) }
 	fr.onPanic = func(st *State) { ex.checkPanic(st, fi, c) }
 	ex.block(st, fi.Decl.Body.List, func(st *State) { ex.doReturn(st, nil) })
+	ex.verifyClosures(fi, c)
 	// a function whose postcondition of layer L is trusted is not verified for that layer at all:
 	// the layer's obligations inside its body are dropped and this is reported
 	trustedLayer := map[string]bool{}
@@ -1729,6 +1731,130 @@ func (ex *Exec) checkPanic(st *State, fi *FuncInfo, c *Contract) {
 		if len(goals) > 0 {
 			ex.oblige(st, "panic.frame", props, sAnd(goals...), "state unchanged when panicking: "+strings.Join(keys, ", "), pos)
 		}
+	}
+}
+
+// verifyClosures: `closure K: requires/ensures` clauses. The K-th function literal of the body is
+// executed on its own from an ARBITRARY state: fresh symbolic parameters of the enclosing function,
+// fresh values for the locals it captures, an arbitrary heap, of which only the closure's own
+// `requires` clauses are assumed (not the function's precondition: the callback runs later). Inside
+// it the function's anchored clauses fire (their ordinals count over the whole function body), its
+// safety obligations are generated as usual, a panic is an obligation failure, and the `ensures`
+// clauses are checked at its returns.
+func (ex *Exec) verifyClosures(fi *FuncInfo, c *Contract) {
+	if len(c.Closures) == 0 {
+		return
+	}
+	var lits []*ast.FuncLit
+	ast.Inspect(fi.Decl.Body, func(n ast.Node) bool {
+		if l, ok := n.(*ast.FuncLit); ok {
+			lits = append(lits, l)
+		}
+		return true
+	})
+	var ks []int
+	for k := range c.Closures {
+		ks = append(ks, k)
+	}
+	sort.Ints(ks)
+	for _, k := range ks {
+		cs := c.Closures[k]
+		if k < 0 || k >= len(lits) {
+			panic(unsupported(fmt.Sprintf("closure %d: the function has %d function literals", k, len(lits))))
+		}
+		lit := lits[k]
+		cc := *c
+		cc.Requires = nil // the closure's own requires are assumed below, once its captured locals exist
+		cc.GhostInit = nil
+		saveEntry, saveBind, saveTargets := ex.entry, ex.topEnvBind, ex.topTargets
+		ex.entry = &State{heap: map[string]string{}}
+		st, _ := ex.entryState(fi, &cc)
+		fr := st.frame
+		info := fi.Pkg.P.TypesInfo
+		// locals of the enclosing function that the literal captures: arbitrary values
+		ast.Inspect(lit.Body, func(n ast.Node) bool {
+			id, ok := n.(*ast.Ident)
+			if !ok {
+				return true
+			}
+			v, ok := info.Uses[id].(*types.Var)
+			if !ok || v.IsField() || v.Pkg() == nil || v.Parent() == nil || v.Parent() == v.Pkg().Scope() {
+				return true
+			}
+			if v.Pos() >= lit.Pos() && v.Pos() < lit.End() {
+				return true // declared inside the literal
+			}
+			if _, _, has := fr.lookupVar(v); has {
+				return true // a parameter or an already declared capture
+			}
+			ex.declare(st, v, ex.freshVal(st, "cap_"+v.Name(), substType(v.Type(), fr.tsub)))
+			return true
+		})
+		func() {
+			defer ex.specRecover("closure requires of " + fi.Key)
+			renv := ex.specEnvFor(st, fi)
+			renv.old = ex.entry
+			for _, r := range cs.Requires {
+				st.assume(renv.boolTerm(r.E))
+				ex.w.assumed[fmt.Sprintf("function literal %d of %s is verified from an arbitrary state that satisfies (assumed of the moment the runtime or the callee calls it): %s", k, fi.FullName(), r.Src)] = true
+			}
+		}()
+		*ex.entry = *st.snapshot() // old(...) in the closure's ensures: the state in which the literal starts
+		ex.entry.frame = nil
+		ex.closureTop = true
+		name := fmt.Sprintf("closure%d", k)
+		// vacuity guard: the closure's precondition must be satisfiable
+		ex.oblige(st, name+".cover.pre", nil, "false", "precondition of the function literal is satisfiable (must NOT be provable)", lit.Pos())
+		ex.obls[len(ex.obls)-1].Vacuity = true
+		fv := ex.funcLit(st, lit)
+		sig, _ := sigOf(fv.Go)
+		// the literal's own parameters: arbitrary values, visible to its ensures clauses by name
+		var cargs []Val
+		cnames := map[string]Val{}
+		if lit.Type.Params != nil {
+			pi := 0
+			for _, f := range lit.Type.Params.List {
+				nn := len(f.Names)
+				if nn == 0 {
+					nn = 1
+				}
+				for j := 0; j < nn; j++ {
+					pt := sig.Params().At(pi).Type()
+					av := ex.freshVal(st, fmt.Sprintf("carg%d", pi), pt)
+					st.assume(ex.typeInv(st, av))
+					cargs = append(cargs, av)
+					if j < len(f.Names) && f.Names[j].Name != "_" {
+						cnames[f.Names[j].Name] = av
+					}
+					pi++
+				}
+			}
+		}
+		fr.onPanic = func(st *State) {
+			ex.oblige(st, name+".nopanic", nil, "false", "the function literal does not panic ("+st.frame.panicDesc+")", lit.Pos())
+		}
+		fr.onReturn = func(st *State, vals []Val) {}
+		func() {
+			defer func() { ex.closureTop = false }()
+			ex.inlineClosure(st, &callTarget{kind: "closure", fnVal: fv, sig: sig, args: cargs}, func(st *State, vals []Val) {
+				env := ex.specEnvFor(st, fi)
+				env.old = ex.entry
+				for n, v := range cnames {
+					env.bind[n] = v
+				}
+				for i, v := range vals {
+					env.bind[fmt.Sprintf("cresult%d", i)] = v
+				}
+				defer ex.specRecover("closure ensures of " + fi.Key)
+				for _, e := range cs.Ensures {
+					if !ex.propActive(e.Props) {
+						continue
+					}
+					ex.oblige(st, fmt.Sprintf("%s.post%d", name, e.Ord), e.Props, env.goal(e.E), "closure ensures "+e.Src, lit.Pos())
+				}
+			})
+		}()
+		ex.entry, ex.topEnvBind, ex.topTargets = saveEntry, saveBind, saveTargets
 	}
 }
 
